@@ -420,6 +420,38 @@ def g_case(args):
     return libname, probs, counts, False
 
 
+RENAMED = {"C_memory_dtor_function": "OWN_release_it", "C_array_type": "OWN_arr_t", "C_capsule_data_type": "OWN_cap_t",
+           "F_array_type": "own_arr_t", "F_capsule_type": "own_cap_t", "F_capsule_data_type": "own_capdata_t",
+           "F_capsule_final_function": "own_final", "F_capsule_delete_function": "own_delete"}
+
+
+def raw_case(args):
+    """The ownership library of C06 (classes, owned / borrowed results, free_pattern, strings, vectors) under default and renamed helper names."""
+    workdir, label, renamed, cfi = args
+    import yaml as _y
+
+    from . import c06
+
+    y = _y.safe_load(c06.YAML)
+    y["options"]["F_CFI"] = bool(cfi)
+    if cfi:
+        # std::vector under F_CFI does not generate (recorded under C05)
+        y["declarations"] = [d for d in y["declarations"] if "vector" not in d["decl"]]
+    if renamed:
+        y["format"] = dict(RENAMED)
+    os.makedirs(workdir)
+    r, tree = gen.gen_tree(workdir, y, keep=True)
+    if r.status != "ok":
+        shutil.rmtree(workdir, ignore_errors=True)
+        return label, [], {"interfaces": 0, "structs": 0}  # whether it generates at all is property C05's subject
+    out = os.path.join(workdir, "out")
+    with open(os.path.join(out, "own.hpp"), "w") as fp:
+        fp.write(c06.HPP)
+    probs, counts = compare_dir(out, "cxx", ["own.hpp"], [], label)
+    shutil.rmtree(workdir, ignore_errors=True)
+    return label, probs, counts
+
+
 def run(ctx):
     quick = ctx.tier == "quick"
     W = ctx.workers
@@ -463,6 +495,14 @@ def run(ctx):
         ctx.outcome("g %s" % ("ok" if not probs else "bad"))
         for key, msg in probs:
             ctx.violation("g %s [%s cfi=%d]" % (re.sub(r"[A-Z]{3}_f[a-z]+\d+", "FN", key), job[3], job[4]), msg, {"kind": "g", "lib": name, "lang": job[3], "cfi": job[4]})
+    rjobs = [(os.path.join(wd, "raw%d" % i), "ownership library%s cfi=%d" % (" with renamed helper names" if rn else "", cfi), rn, cfi)
+             for i, (rn, cfi) in enumerate([(False, 0), (True, 0), (False, 1), (True, 1)])]
+    for label, probs, counts in isolate.pmap(raw_case, rjobs, W):
+        gif += counts["interfaces"]
+        gst += counts["structs"]
+        ctx.outcome("raw %s" % ("ok" if not probs else "bad"))
+        for key, msg in probs:
+            ctx.violation("raw %s %s" % (label, key), msg, {"kind": "raw", "label": label})
     total = nif + gif
     ctx.count(states=len(cres) + len(gres) + len(rres), transitions=total + nst + gst, validated=total + nst + gst)
     ctx.nontrivial_n(total)
